@@ -184,6 +184,8 @@ def _handle(req, blobs):
         return c05.do_request(pickle.loads(blobs[req["text"]]), req["op"], req["path"])
     if k == "c06":
         return c06.flatten_outcome(pickle.loads(blobs[req["text"]]), req["path"], req["via"])
+    if k == "transfer":
+        return c05.api_run(req["scratch"], req["files"], req["calls"], req["tag"])
     if k == "cli":
         return c05.cli_run(_Ctx(req["scratch"]), req["text"], req["models"], req["target"], req["tag"], req.get("files"))
     raise ValueError("bad request " + str(k))
